@@ -130,6 +130,45 @@ Proof.
   exists p. split; [now apply node_path_sound|].
   destruct (path_exts D g1 p) as [e|]; [|discriminate]. apply N.eqb_eq in H. now subst.
 Qed.
+Lemma wf_dnab_sound l : wf_dnab l = true -> wf_dna l.
+Proof.
+  unfold wf_dnab, wf_dna. rewrite forallb_forall, Forall_forall. intros H x Hx. apply N.ltb_lt. auto.
+Qed.
+
+Theorem rvalidb_sound (g : graph) : rvalidb D K stranded g = true -> rvalid D K stranded g.
+Proof.
+  unfold rvalidb, rvalid. intro H.
+  apply andb_true_iff in H. destruct H as [H H6]. apply andb_true_iff in H. destruct H as [H H5].
+  apply andb_true_iff in H. destruct H as [H H4]. apply andb_true_iff in H. destruct H as [H H3].
+  apply andb_true_iff in H. destruct H as [H1 H2].
+  split; [|split; [now apply nodupb_sound | split; [now apply nodupb_sound | split; [|split]]]].
+  - apply Forall_forall. intros n Hn. rewrite forallb_forall in H1. specialize (H1 n Hn).
+    unfold node_okb in H1. apply andb_true_iff in H1. destruct H1 as [H1 Hd].
+    apply andb_true_iff in H1. destruct H1 as [H1 Hc]. apply andb_true_iff in H1. destruct H1 as [Ha Hb].
+    unfold node_ok. split; [now apply wf_dnab_sound|]. split; [|now apply N.ltb_lt].
+    apply Nat.leb_le in Hb, Hc. lia.
+  - intros Es n d Hn Hp. unfold pal_endsb in H4. rewrite Es in H4. cbn [orb] in H4.
+    rewrite forallb_forall in H4. specialize (H4 n Hn). rewrite forallb_forall in H4.
+    specialize (H4 d (In_dirs2 d)). rewrite Hp in H4. cbn in H4. now apply Nat.eqb_eq.
+  - intros x d b n Hn Hb Hh. unfold resolvableb in H5. rewrite forallb_forall in H5.
+    assert (Hx : (x < length g)%nat) by (apply nth_error_Some; congruence).
+    specialize (H5 x). rewrite in_seq in H5. specialize (H5 ltac:(lia)).
+    rewrite forallb_forall in H5. specialize (H5 d (In_dirs2 d)).
+    rewrite forallb_forall in H5. specialize (H5 b Hb). rewrite Hn, Hh in H5. cbn in H5.
+    destruct (ext_link D K stranded g x d b); [discriminate | discriminate].
+  - intros x d b y t f n m Hn Hm Hb He. unfold links_symb in H6. rewrite forallb_forall in H6.
+    assert (Hx : (x < length g)%nat) by (apply nth_error_Some; congruence).
+    specialize (H6 x). rewrite in_seq in H6. specialize (H6 ltac:(lia)).
+    rewrite forallb_forall in H6. specialize (H6 d (In_dirs2 d)).
+    rewrite forallb_forall in H6. specialize (H6 b Hb). rewrite He, Hn, Hm in H6.
+    unfold back_link in H6. apply existsb_exists in H6. destruct H6 as (t' & _ & H6).
+    apply existsb_exists in H6. destruct H6 as (b' & Hb' & H6).
+    destruct (ext_link D K stranded g y t' b') as [[[x' d'] f']|] eqn:E; [|discriminate].
+    apply andb_true_iff in H6. destruct H6 as [H6 Hd]. apply andb_true_iff in H6. destruct H6 as [Hx' Ht].
+    apply Nat.eqb_eq in Hx'. subst x'. exists t', b', d', f'. split; auto. split; auto. split.
+    + intro Hp. rewrite Hp in Ht. cbn in Ht. now apply dir_eqb_eq.
+    + intro Hp. rewrite Hp in Hd. cbn in Hd. now apply dir_eqb_eq.
+Qed.
 End Sound.
 
 Section SoundPay.
